@@ -2,6 +2,10 @@ package checks
 
 import (
 	"fmt"
+	"os"
+	"path/filepath"
+	"strings"
+	"sync"
 
 	"verif/internal/hist"
 	"verif/internal/vc"
@@ -9,14 +13,19 @@ import (
 
 func init() {
 	Registry["C03"] = func(c *Ctx) {
-		c.R.Rule = "Pool alone: the real TaskWorkerPool driven directly by 2-4 callers on 1-2 workers with no stop / an interrupt / a task that cancels when it ends / a direct Shutdown (plus early-clock-tick variants when callers wait in the queue), every schedule with <= 3 (quick; bound 2 complete) / 4 deviations: no panic, never more than num_workers tasks running, no task twice, Run returns its own task's result, at most 2*num_workers already accepted jobs (queue + one per worker) start after Shutdown returned. scenario = (graph of <=4 nodes incl. alias / unselected node, <=1 failing target, num_workers in {1,2}); the real dag.Walker + real TaskWorkerPool run under the controlled scheduler for EVERY choice sequence with <= d deviations; on every execution: a command starts only after all transitive dependencies ended successfully, no command starts twice, running commands <= num_workers. Non-trivial = at least one command ran; distinct (scenario, observable trace) pairs are counted. Second part (real binary): histories of <= 3/4 operations over {edit, taint, build} on the chain workspace in load_outputs all and minimal with the no-cache tag on nobody / x / y: no command appears twice in the trace of one build. Per-target locks: the real maps.MutexMap alone, 2-3 goroutines x 1-2 rounds on one name (and a second name), mutex and atomic operations as scheduling points, <= 3/5 deviations: never two holders, Unlock never fails, nobody waits forever. Declared edges (real binary): a target depending on two same-named targets of different packages / on a target and an alias / twice on one target starts after every dependency's command has ended."
+		c.R.Rule = "Pool alone: the real TaskWorkerPool driven directly by 2-4 callers on 1-2 workers with no stop / an interrupt / a task that cancels when it ends / a direct Shutdown (plus early-clock-tick variants when callers wait in the queue), every schedule with <= 3 (quick; bound 2 complete) / 4 deviations: no panic, never more than num_workers tasks running, no task twice, Run returns its own task's result, at most 2*num_workers already accepted jobs (queue + one per worker) start after Shutdown returned. scenario = (graph of <=4 nodes incl. alias / unselected node, <=1 failing target, num_workers in {1,2}); the real dag.Walker + real TaskWorkerPool run under the controlled scheduler for EVERY choice sequence with <= d deviations; on every execution: a command starts only after all transitive dependencies ended successfully, no command starts twice, running commands <= num_workers. Non-trivial = at least one command ran; distinct (scenario, observable trace) pairs are counted. Second part (real binary): histories of <= 3/4 operations over {edit, taint, build} on the chain workspace in load_outputs all and minimal with the no-cache tag on nobody / x / y: no command appears twice in the trace of one build. Per-target locks: the real maps.MutexMap alone, 2-3 goroutines x 1-2 rounds on one name (and a second name), mutex and atomic operations as scheduling points, <= 3/5 deviations: never two holders, Unlock never fails, nobody waits forever. Declared edges (real binary): a target depending on two same-named targets of different packages / on a target and an alias / twice on one target starts after every dependency's command has ended. Worker bound (real binary): load_outputs minimal / all, num_workers 1 / 2, one or two command-less dependants (cache misses) of a dependency whose blobs are evicted while every worker runs a long command: the number of commands between their own start and end trace lines never exceeds num_workers."
 		c.R.Assume("commands are stubs with one scheduling point between start and end (latency = any number of other steps, including zero)", "scheduling points at every lock / once / wait / channel operation / select / close / goroutine start of graph_walker.go and task_worker_pool.go", "interleavings beyond the deviation bound are not covered; hashing / output-loading mutexes are covered by the second harness (mutexmap)")
+		if os.Getenv("VERIF_PART") == "worker-bound" { // development aid: this part alone
+			c03WorkerBound(c)
+			return
+		}
 		walkCheckBudget("C03", []string{"C03:", "C12:"}, 2, 3, 40, 420)(c)
 		// the pool alone (small driver, deviation bound 3 / 4): never more than num_workers tasks, no task twice
 		poolCheck(c, "C03", []string{"C03:"})
 		// the per-target locks that make "each target once" hold for the hasher and the output registry
 		mutexMapCheck(c, "C03", []string{"C03:", "C04:"})
 		c03DeclaredEdges(c)
+		c03WorkerBound(c)
 		// "each selected target is executed at most once per build" with the real binary: the chain
 		// workspace in both load_outputs modes and all no-cache-tag universes (a no-cache dependency
 		// must not be executed again by each executing dependant)
@@ -42,7 +51,7 @@ func init() {
 
 func init() {
 	Registry["C18"] = func(c *Ctx) {
-		c.R.Rule = "Pool alone: the real TaskWorkerPool driven directly by 2-4 callers on 1-2 workers with no stop / an interrupt / a task that cancels when it ends / a direct Shutdown (plus early-clock-tick variants when callers wait in the queue), every schedule with <= 3 (quick; bound 2 complete) / 4 deviations: no panic, never more than num_workers tasks running, no task twice, Run returns its own task's result, at most 2*num_workers already accepted jobs (queue + one per worker) start after Shutdown returned. scenario = (graph of <=4 nodes, optional failing target, fail-fast, num_workers) plus one external cancel event (what SIGINT/SIGTERM trigger via SetupCommand's context) delivered by a dedicated goroutine at ANY scheduling point; real Walker + pool under every choice sequence with <= d deviations; oracles: Walk returns, no command starts after the cancel was delivered, an interrupt with unfinished targets surfaces as an error. Non-trivial = at least one command ran. Process half (real binary, real signals): a workspace with num_workers=1, five short targets and a directory-output target; a fault-free run of the instrumented binary logs every instance of every file-system call site from loading to shutdown; for every instance (quick: <= 3 per call site, alternating SIGINT/SIGTERM; thorough: every instance with both signals) the process sends the signal to itself exactly there and writes a marker into the command trace: grog must exit within 60 s, at most one queued command may still start after the marker, the exit status is non-zero when targets were unfinished, the cache holds no more target results than commands that finished and passes the offline audit (no result referencing a blob that was not stored), and an uninstrumented follow-up build acquires the (stale) lock, exits 0 and produces the outputs of a from-scratch build. Finally the running command itself interrupts grog (SIGINT/SIGTERM, with and without a shell that traps the signals): non-zero exit, dependant not started, no cache entry, and the shell does not survive (it would create a marker file 2 s later). A command that leaves a long-lived child behind when interrupted does not delay the next build. A build that is still waiting for the workspace lock exits non-zero on SIGINT / SIGTERM without starting a command. A dependency that is re-run inside its dependant's task (load_outputs=minimal, blobs lost) and interrupts grog is terminated like any other command."
+		c.R.Rule = "Pool alone: the real TaskWorkerPool driven directly by 2-4 callers on 1-2 workers with no stop / an interrupt / a task that cancels when it ends / a direct Shutdown (plus early-clock-tick variants when callers wait in the queue), every schedule with <= 3 (quick; bound 2 complete) / 4 deviations: no panic, never more than num_workers tasks running, no task twice, Run returns its own task's result, at most 2*num_workers already accepted jobs (queue + one per worker) start after Shutdown returned. scenario = (graph of <=4 nodes, optional failing target, fail-fast, num_workers) plus one external cancel event (what SIGINT/SIGTERM trigger via SetupCommand's context) delivered by a dedicated goroutine at ANY scheduling point; real Walker + pool under every choice sequence with <= d deviations; oracles: Walk returns, no command starts after the cancel was delivered, an interrupt with unfinished targets surfaces as an error. Non-trivial = at least one command ran. Process half (real binary, real signals): a workspace with num_workers=1, five short targets and a directory-output target; a fault-free run of the instrumented binary logs every instance of every file-system call site from loading to shutdown; for every instance (quick: <= 3 per call site, alternating SIGINT/SIGTERM; thorough: every instance with both signals) the process sends the signal to itself exactly there and writes a marker into the command trace: grog must exit within 60 s, at most one queued command may still start after the marker, the exit status is non-zero when targets were unfinished, the cache holds no more target results than commands that finished and passes the offline audit (no result referencing a blob that was not stored), and an uninstrumented follow-up build acquires the (stale) lock, exits 0 and produces the outputs of a from-scratch build. Finally the running command itself interrupts grog (SIGINT/SIGTERM, with and without a shell that traps the signals): non-zero exit, dependant not started, no cache entry, and the shell does not survive (it would create a marker file 2 s later). A command that leaves a long-lived child behind when interrupted does not delay the next build. A build that is still waiting for the workspace lock exits non-zero on SIGINT / SIGTERM without starting a command. A dependency that is re-run inside its dependant's task (load_outputs=minimal, blobs lost) and interrupts grog is terminated like any other command. The signal is also delivered in the middle of a slow cache write (the goroutine at an fs.go call site stays there for 20 s while grog exits), and every follow-up is two builds: the second one after all outputs were deleted must restore the bytes of a from-scratch build."
 		c.R.Assume("the signal is modelled as cancellation of the root context (console.SetupCommand does exactly that on SIGINT/SIGTERM)", "commands are stubs that, like exec.CommandContext, do not start under a cancelled context and are killed when it is cancelled")
 		walkCheckBudget("C18", []string{"C18:", "C04:walk-never-returns", "C04:panic"}, 2, 3, 35, 400)(c)
 		// the pool alone: after Shutdown has returned at most the already accepted jobs (queue + one per worker) may still start
@@ -108,4 +117,98 @@ func c03DeclaredEdges(c *Ctx) {
 		c.R.Nontrivial("declared-edges|" + v.name)
 		box.Remove()
 	}
+}
+
+// c03WorkerBound: "never more than num_workers commands at once" with the real binary where a command is NOT started
+// by its own target's task: under load_outputs=minimal a dependant that is a cache miss re-runs a dependency whose
+// blobs are gone, inside its own task. The dependants here are command-less grouping targets (one or two of them),
+// every worker is busy with a long command at that moment. The commands write start / end lines themselves; the
+// number of commands between their start and end line is a lower bound of the number running, so the oracle cannot
+// fire on a build that keeps the bound. ("At most once" is not judged here: C03 states it for builds without cache
+// faults; what two dependants do to a dependency with lost blobs is C15's, see c15SharedRerun.)
+func c03WorkerBound(c *Ctx) {
+	grog, err := vc.BuildGrog("grog", nil)
+	if err != nil {
+		c.R.BrokenCheck("%v", err)
+		return
+	}
+	base, cleanup := scratchBase(c, "c03bound")
+	defer cleanup()
+	cmd := func(sleep, out string) string {
+		return traceStart + "\nsleep " + sleep + "\nprintf made > " + out + "\necho \"end $GROG_TARGET\" >> \"$VTRACE\""
+	}
+	var wg sync.WaitGroup
+	for _, workers := range []int{1, 2} {
+		for _, groups := range []int{1, 2} {
+			for _, mode := range []string{"minimal", "all"} {
+				wg.Add(1)
+				go func(workers, groups int, mode string) {
+					defer wg.Done()
+					name := fmt.Sprintf("num_workers=%d, %d command-less dependants of an evicted dependency, load_outputs=%s", workers, groups, mode)
+					mk := func(v string) *hist.Source {
+						s := &hist.Source{Files: map[string]hist.File{"p/d.in": {Content: "d"}}, Toml: fmt.Sprintf("num_workers = %d\n", workers)}
+						s.Targets = append(s.Targets,
+							hist.Target{Pkg: "p", Name: "d", Inputs: []string{"d.in"}, Outputs: []string{"d.txt"}, Command: cmd("0.6", "d.txt")},
+							hist.Target{Pkg: "p", Name: "k", Deps: []string{":d"}})
+						for i := 0; i < workers; i++ {
+							n := fmt.Sprintf("l%d", i)
+							s.Files["p/"+n+".in"] = hist.File{Content: v}
+							s.Targets = append(s.Targets, hist.Target{Pkg: "p", Name: n, Deps: []string{":k"}, Inputs: []string{n + ".in"}, Outputs: []string{n + ".txt"}, Command: cmd("1.5", n+".txt")})
+						}
+						for i := 0; i < groups; i++ {
+							n := fmt.Sprintf("g%d", i)
+							s.Files["p/"+n+".in"] = hist.File{Content: v}
+							s.Targets = append(s.Targets, hist.Target{Pkg: "p", Name: n, Deps: []string{":d"}, Inputs: []string{n + ".in"}})
+						}
+						return s
+					}
+					s1, s2 := mk("v1"), mk("v2")
+					box, err := hist.NewBox(base)
+					if err != nil {
+						c.R.BrokenCheck("%v", err)
+						return
+					}
+					s1.Materialize(box.WS(), nil)
+					if r0 := box.Run(grog, hist.RunOpts{Args: []string{"build", "//..."}, Ceiling: 60e9}); r0.Exit != 0 {
+						c.R.BrokenCheck("worker bound, %s: preparation build failed: %s", name, tail(r0.Output, 300))
+						box.Remove()
+						return
+					}
+					// the dependency's blobs are evicted and its output is gone; the dependants' inputs change
+					os.RemoveAll(filepath.Join(box.CacheDir(), "cas"))
+					os.Remove(filepath.Join(box.WS(), "p/d.txt"))
+					s2.Materialize(box.WS(), s1)
+					rr := box.Run(grog, hist.RunOpts{Args: []string{"build", "//...", "--load-outputs=" + mode}, Ceiling: 60e9})
+					replay := map[string]any{"scenario": name, "history": "build //...; delete the cas directory and p/d.txt; edit the inputs of l* and g*; build //... --load-outputs=" + mode, "exit": rr.Exit, "trace": rr.Trace, "grog_output_tail": tail(rr.Output, 500)}
+					running, maxRunning := 0, 0
+					starts := map[string]int{}
+					for _, l := range rr.Trace {
+						switch {
+						case strings.HasPrefix(l, "start "):
+							running++
+							starts[strings.TrimPrefix(l, "start ")]++
+							if running > maxRunning {
+								maxRunning = running
+							}
+						case strings.HasPrefix(l, "end "):
+							running--
+						}
+					}
+					if maxRunning > workers {
+						c.R.Violate(vc.Violation{Sig: "C03:more-commands-running-than-num_workers", Detail: fmt.Sprintf("%s: %d commands were between their start and end line at once; trace %v", name, maxRunning, rr.Trace), Replay: replay})
+					}
+					if rr.Exit != 0 {
+						c.R.Violate(vc.Violation{Sig: "C03:build-with-evicted-dependency-fails", Detail: fmt.Sprintf("%s: grog exited %d: %s", name, rr.Exit, tail(rr.Output, 300)), Replay: replay})
+					}
+					c.R.AddCounts(1, 1, 2, 1)
+					c.R.Outcome(fmt.Sprintf("worker-bound|%s|max=%d|started=%d", name, maxRunning, len(starts)))
+					if len(starts) > workers {
+						c.R.Nontrivial("worker-bound|" + name)
+					}
+					box.Remove()
+				}(workers, groups, mode)
+			}
+		}
+	}
+	wg.Wait()
 }
